@@ -88,10 +88,15 @@ class ParallelHoleCollimatorGeometry(Parallel3dAxisGeometry):
             orig_to_det_norm = np.linalg.norm(orig_to_det_init)
             if orig_to_det_norm == 0:
                 raise ValueError('`orig_to_det_init` cannot be zero')
-            else:
-                det_pos_init = (orig_to_det_init / orig_to_det_norm *
-                                self.det_radius)
-            kwargs['det_pos_init'] = det_pos_init
+            orig_to_det_dir = orig_to_det_init / orig_to_det_norm
+        else:
+            # Default direction: the standard one, transformed along with
+            # `axis` exactly as the parent class does it (see Notes)
+            orig_to_det_dir = transform_system(
+                axis, self._default_config['axis'],
+                [self._default_config['det_pos_init']])[1]
+            orig_to_det_dir = orig_to_det_dir / np.linalg.norm(orig_to_det_dir)
+        kwargs['det_pos_init'] = orig_to_det_dir * self.det_radius
         self._orig_to_det_init_arg = orig_to_det_init
 
         super(ParallelHoleCollimatorGeometry, self).__init__(
